@@ -1728,8 +1728,14 @@ class GitClient:
             abort()
             raise
         else:
+            # New graft points are recorded before the pack is stored and
+            # old ones dropped after it: whenever we die, no commit whose
+            # parents are absent sits in the store without being listed in
+            # .git/shallow (a retry would take it for complete history).
+            if result.new_shallow:
+                target.update_shallow(result.new_shallow, None)
             commit()
-        target.update_shallow(result.new_shallow, result.new_unshallow)
+        target.update_shallow(None, result.new_unshallow)
         return result
 
     def fetch_with_bundle_uri(
